@@ -32,6 +32,10 @@ namespace detail {
     if (m == chrono::month{2} and y.is_leap()) {
         return chrono::day{29};
     }
+    if (not m.ok()) {
+        // The result is unspecified for a month outside [1, 12]; never index past the table.
+        return chrono::day{0};
+    }
     return lastDays[static_cast<unsigned>(m) - 1];
 }
 
